@@ -6,7 +6,10 @@ R2  Gen_Poly: TLC enumerates (strided) all pairs of polynomials with up to four 
 R3  the harness runs winter-math's polynom::{add, sub, mul, mul_by_scalar, div, syn_div, syn_div_roots_in_place, eval,
     eval_many, interpolate, interpolate_batch, poly_from_roots, degree_of, remove_leading_zeros} and get_power_series(_with_
     offset), add_in_place, mul_acc, batch_inversion over ToyField; Trace_Poly.tla checks each result against its defining
-    identity (quotient*divisor + remainder of lower degree = dividend, interpolation inverts evaluation, x*inv(x) = 1 ...)."""
+    identity (quotient*divisor + remainder of lower degree = dividend, interpolation inverts evaluation, x*inv(x) = 1 ...).
+R3' a thinned subset of the same operand sets lifted into f62 / f64 / f128 and their quadratic / cubic extensions (harness
+    `polyf`); Trace_PolyF.tla checks the same identities in the generic algebra PolyAlg.tla instantiated with the field
+    arithmetic of ExtField.tla on BigNat (Deg = 1: the base field)."""
 import json, os, re, time
 import vlib
 from vlib import log
@@ -39,11 +42,37 @@ def run(tier, seed):
     for p in panics:
         v.violation("poly/panic/" + p["what"], "a polynomial utility panics on an admissible input %s: %s" % (p["cfg"][:200], p["what"]), p)
 
+    # real fields and extensions: every k-th operand set (all vector lengths <= 16 and the three lengths around the batching
+    # threshold), one trace per (field, degree)
+    polys = [c for c in cfgs if c["kind"] == "polys" and len(c["a"]) <= 13]
+    longs = [c for c in cfgs if c["kind"] == "polys" and len(c["a"]) in (17, 33) and c["npts"] == len(c["a"])]
+    vecs = [c for c in cfgs if c["kind"] == "vectors" and (c["len"] <= 16 or c["len"] in (1023, 1024, 1025))]
+    fjobs, fevents = [], 0
+    FD = [("f64", 1), ("f64", 2), ("f64", 3), ("f62", 1), ("f62", 2), ("f62", 3), ("f128", 1), ("f128", 2)]
+    for j, (fld, deg) in enumerate(FD):
+        npol = {1: 30, 2: 12, 3: 6}[deg] * (1 if tier == "quick" else 12)
+        nvec = {1: 6, 2: 3, 3: 2}[deg] * (1 if tier == "quick" else 6)
+        step = max(1, len(polys) // npol)
+        part = polys[(j * 7) % step::step][:npol] + (longs[j % 2::2][:1 if tier == "quick" else 4] if deg == 1 else []) + [vecs[(j * 5 + i * 7) % len(vecs)] for i in range(min(nvec, len(vecs)))]
+        sp = os.path.join(wd, "fcfg_%s_%d.ndjson" % (fld, deg))
+        vlib.write_ndjson(sp, part)
+        tp = os.path.join(wd, "ftrace_%s_%d.ndjson" % (fld, deg))
+        rc, out, err = vlib.run_harness(exe, ["polyf", "--scenarios", sp, "--field", fld, "--deg", str(deg), "--out", tp, "--seed", str(seed + j)], timeout=900)
+        if rc != 0:
+            raise vlib.ToolError("polyf harness rc=%s: %s" % (rc, err[-400:]))
+        for p in json.loads(out)["panics"]:
+            v.violation("poly/panic/" + p["what"], "a polynomial utility panics on an admissible input over %s degree %d: %s: %s" % (fld, deg, p["cfg"][:200], p["what"]), p)
+        fevents += sum(1 for _ in open(tp)) - 1
+        fjobs.append((fld, deg, tp))
+
     def validate(tp):
+        if isinstance(tp, tuple):
+            fld, deg, path = tp
+            return path, vlib.tlc_validate("Trace_PolyF", "Trace_PolyF_%s_%d" % (fld, deg), path, tag="Trace_PolyF_%s_%d" % (fld, deg), timeout=3300, xmx="4g")
         return tp, vlib.tlc_validate("Trace_Poly", "Trace_Poly", tp, tag="Trace_Poly_" + os.path.basename(tp), timeout=3300, xmx="4g")
 
     states, trans, accepted = r.distinct, r.generated, 0
-    for tp, rt in vlib.parallel(validate, jobs, max_workers=8):
+    for tp, rt in vlib.parallel(validate, fjobs + jobs, max_workers=16):
         states += rt.distinct
         trans += rt.generated
         if rt.ok:
@@ -57,17 +86,20 @@ def run(tier, seed):
         v.violation("poly/%s/identity" % ev.get("ev", "?"),
                     "a polynomial/batch utility violates its defining identity (event %s: a=%s b=%s k=%s len=%s)" % (
                         ev.get("ev"), ev.get("a"), ev.get("b"), ev.get("k"), ev.get("len")), {"trace": tp, "line": line, "event": small})
-    log("[trace] %d operand sets, %d events, %d/%d shards accepted" % (len(cfgs), events, accepted, len(jobs)))
+    log("[trace] %d operand sets, %d events over ToyField + %d events over the real fields / extensions, %d/%d traces accepted" % (
+        len(cfgs), events, fevents, accepted, len(jobs) + len(fjobs)))
     rc = v.finish()
     vlib.write_evidence(PID, tier, seed, "model_checking", {
         "states": states, "transitions": trans, "traces_validated_against_impl": accepted,
         "samples": cfgs[:1] + cfgs[-2:], "evaluations": events * 16, "distinct_nontrivial": len(cfgs),
-        "rule": "pairs of polynomials (<= 4 coefficients over {0,1,p-1,7,12345}) thinned by stride %d, each with scalar, divisor x^a-b, 1..8 points, batch interpolation rows; "
+        "rule": "pairs of polynomials (<= 4 coefficients over {0,1,p-1,7,12345}) thinned by stride %d, dividends of 5..13 and operands of 14..65 coefficients, each with scalar, divisor x^a-b, "
+                "point sets of 1..8 points (and up to 65 for the long operands) with x = 0 at every position, batch interpolation rows; "
                 "vector lengths 1,2,3,16,1023,1024,1025,2048 with zeros nowhere / at both ends / at every third position" % (211 if tier == "quick" else 7),
-        "exhaustive": False, "shards_accepted": accepted,
+        "exhaustive": False, "shards_accepted": accepted, "real_field_events": fevents,
+        "real_fields": "f62, f64, f128 and their quadratic / cubic extensions (8 field x degree combinations), operands lifted from the same generator",
         "known_finding_occurrences": v.n_known, "new_violations": v.n_new,
     }, time.time() - t0, violations=v.n_new,
-        assumptions=["checked over ToyField (generic code); panics on inputs the documentation excludes (empty polynomials, zero divisor, divisor of higher degree) are outside the claim"])
+        assumptions=["breadth over ToyField (generic code), a thinned subset over the real fields and extensions; panics on inputs the documentation excludes (empty polynomials, zero divisor, divisor of higher degree) are outside the claim"])
     return rc
 
 
